@@ -89,6 +89,16 @@ func TestVerifC07Avc(t *testing.T) {
 			}
 			return err != nil
 		}},
+		{name: "avc.nalu.dec", modelled: true, gen: vC07AvcNalu, run: func(b []byte) bool { return NewNALU().UnmarshalBinary(b) != nil }},
+		{name: "avc.record.dec", modelled: true, gen: vC07AvcRecord, run: func(b []byte) bool {
+			return NewAVCDecoderConfigurationRecord().UnmarshalBinary(b) != nil
+		}},
+		{name: "avc.sample.dec", modelled: true, gen: vC07AvcSample, run: func(b []byte) bool {
+			if len(b) == 0 {
+				return true
+			}
+			return NewAVCSample(b[0]).UnmarshalBinary(b[1:]) != nil
+		}},
 		{name: "avc.naluheader", sweep: 1, run: func(b []byte) bool {
 			v := NewNALUHeader()
 			err := v.UnmarshalBinary(b)
@@ -112,12 +122,12 @@ func TestVerifC07Avc(t *testing.T) {
 		{name: "avc-record-many-pps", dec: "avc.record", build: func(n int) []byte {
 			out := []byte{1, 100, 0, 31, 0xff, 0xe0, 255}
 			for i := 0; i < 255; i++ {
-				l := (n - 7) / 255 - 2
+				l := (n-7)/255 - 2
 				out = append(out, byte(l>>8), byte(l))
 				out = append(out, make([]byte, l)...)
 			}
 			return out
 		}},
 	}
-	vC07Drive(t, decs, helpers, fams, 800, 60000)
+	vC07Drive(t, decs, helpers, fams, 800, 10000)
 }
